@@ -837,6 +837,8 @@ impl Database {
     pub fn set_value(&self, change: &Change) -> Response {
         // The version check and the write happen under one write lock, otherwise two writers
         // presenting the same version both pass the check
+        #[cfg(feature = "verif")]
+        crate::verif::yield_point("set_value.map.write");
         let new_version = {
             let mut db = self.map.write().unwrap();
             let old_version = db.get(&change.key).cloned();
